@@ -261,6 +261,7 @@ type player struct {
 	gates     map[string]*gate
 	consumerOn bool
 	consCond  *sync.Cond
+	pauseReq  chan struct{} // rendezvous: the consumer has left its receive when a pause is recorded
 	evClosed  chan struct{}
 	closeFromLoopOn int // tag: consumer calls Close when it receives the frame with this tag (0 = never)
 	closeOnce sync.Once
@@ -465,7 +466,13 @@ func (p *player) consumer() {
 			p.consCond.Wait()
 		}
 		p.mu.Unlock()
-		evt, ok := <-p.node.Events()
+		var evt gomavlib.Event
+		var ok bool
+		select {
+		case evt, ok = <-p.node.Events():
+		case <-p.pauseReq:
+			continue // back to the gate above: consumerOn is already false
+		}
 		if !ok {
 			p.rec.Put(M{"e": "EvClosed", "t": p.ms()})
 			return
@@ -723,6 +730,7 @@ func cmdNode(o opts) {
 		peers: map[[2]int]net.Conn{}, listeners: map[int]net.Listener{}, lmode: map[int]string{}, serialFailsLeft: map[int]int{},
 		peerSeq: map[int]int{}, expect: map[int]int64{}, peerEnded: map[[2]int]bool{}}
 	p.consCond = sync.NewCond(&p.mu)
+	p.pauseReq = make(chan struct{})
 	p.rec.Flush = true
 	p.touch()
 	defer func() {
